@@ -214,6 +214,26 @@ void gen(Rng& r, Plan& p, const GenParams& gp) {
     for (int i = 0; i < nparents; i++) { Op o; o.kind = K_SUBMIT; o.a = 1 | 8; o.b = (int64_t)r.range(200, 600); o.id = i; p.threads[1].push_back(o); }
     p.cfg["global_cap"] = 64;
   }
+  else if (type == 0 && !(gp.mode >= 0) && r.chance(1, 12)) {
+    // balance pressure: a tiny global queue kept full by external submitters
+    // (who may block, they are not workers) while parents put children into
+    // their local queue — never more than its capacity and no grandchildren, so
+    // no worker ever pushes into the global queue — and the balance thread
+    // moves them to the global queue, blocking in the middle of a transfer.
+    int64_t lc = r.chance(1, 2) ? 1 : 2;
+    p.cfg["workers"] = (int64_t)r.range(1, 2);
+    p.cfg["local_cap"] = lc; p.cfg["steal"] = (int64_t)r.below(2);
+    p.cfg["balance_us"] = (int64_t)r.range(5, 60);
+    p.cfg["global_cap"] = (int64_t)r.range(1, 2);
+    p.cfg["stop_mode"] = (int64_t)r.below(2);
+    for (auto& th : p.threads) th.clear();
+    p.threads.resize(3);
+    int id = 0;
+    int nparents = (int)r.range(2, 3), nplain = (int)r.range(3, 6);
+    for (int i = 0; i < nparents; i++) { Op o; o.kind = K_SUBMIT; o.a = lc | 8; o.b = (int64_t)r.range(50, 300); o.id = id++; p.threads[1].push_back(o); }
+    for (int i = 0; i < nplain; i++) { Op o; o.kind = r.chance(1, 2) ? K_SUBMIT : K_EXECUTE; o.a = 0; o.b = (int64_t)r.below(100); o.id = id++; p.threads[2].push_back(o); }
+    p.cfg["pressure"] = 1;
+  }
   // faulty executor: which attempts are refused
   p.cfg["fail_mask"] = (int64_t)r.below(64);
 }
@@ -256,6 +276,7 @@ void run(const Plan& p) {
     s.pool = new babylon::ThreadPoolExecutor();
     s.pool->set_worker_number((size_t)std::max<int64_t>(1, std::min<int64_t>(p.get("workers", 1), p.get("wide", 0) ? 140 : 3)));
     if (p.get("wide", 0)) probe("wide_pool");
+    if (p.get("pressure", 0)) probe("balance_pressure");
     s.pool->set_global_capacity((size_t)std::max<int64_t>(1, std::min<int64_t>(p.get("global_cap", 1), 64)));
     s.local_capacity = (size_t)std::max<int64_t>(0, std::min<int64_t>(p.get("local_cap", 0), 4));
     s.pool->set_local_capacity(s.local_capacity);
